@@ -119,7 +119,7 @@ def parse_http_obs(s):
     ws = s.split()
     if not ws:
         return None
-    if ws[0] in ('panic', 'bad-op'):
+    if ws[0] in ('panic', 'bad-op') or not ws[0].isdigit():
         return {'status': ws[0]}
     d = {'status': int(ws[0])}
     for w in ws[1:]:
@@ -516,7 +516,7 @@ def compare_run(run, owned):
             ih, mh = parse_http_obs(r.impl), parse_http_obs(r.model)
             same = ih is not None and mh is not None and all(ih.get(k) == mh.get(k) for k in ('status', 'vid', 'pvid', 'sr')) and blob_key(ih.get('body', '-') if ih.get('status') == 200 else '-') == blob_key(mh.get('body', '-') if mh.get('status') == 200 else '-')
             tags = [] if same else ['conc.resp']
-        elif r.ws[0] in ('req', 'prefill', 'seq', 'illegal', 'fault'):
+        elif r.ws[0] in ('req', 'prefill', 'seq', 'illegal', 'fault', 'crash', 'pool'):
             tags = []
         elif r.ws[0] == 'http':
             tags = http_field_diffs(r)
